@@ -57,9 +57,9 @@ func (i *Inst) Open(o OpenOpts) (*TunConn, *wsraw.HTTPReply, error) {
 			return nil, rep, err
 		}
 		t.WS = ws
-		if idx, _ := i.P.Wait(t.OpenMark, 10*time.Second, func(e gw.Event) bool { return e.Cid == cid && e.Pt == "reg.end" }); idx < 0 {
+		if idx, _ := i.P.Wait(t.OpenMark, 10*time.Second, func(e gw.Event) bool { return e.Cid == cid && e.Pt == "tr.reading" }); idx < 0 {
 			ws.Close()
-			return nil, rep, fmt.Errorf("no ws.open/reg.end hook event for %s", cid)
+			return nil, rep, fmt.Errorf("no tr.reading hook event for %s", cid)
 		}
 		return t, rep, nil
 	case "legacy":
@@ -84,9 +84,9 @@ func (i *Inst) Open(o OpenOpts) (*TunConn, *wsraw.HTTPReply, error) {
 			t.Close()
 			return nil, rep2, err
 		}
-		if idx, _ := i.P.Wait(t.OpenMark, 10*time.Second, func(e gw.Event) bool { return e.Cid == cid && e.Pt == "reg.end" }); idx < 0 {
+		if idx, _ := i.P.Wait(t.OpenMark, 10*time.Second, func(e gw.Event) bool { return e.Cid == cid && e.Pt == "tr.reading" }); idx < 0 {
 			t.Close()
-			return nil, rep2, fmt.Errorf("no reg.end hook event for legacy %s", cid)
+			return nil, rep2, fmt.Errorf("no tr.reading hook event for legacy %s", cid)
 		}
 		return t, rep2, nil
 	}
